@@ -104,14 +104,16 @@ UNKNOWN = wire.encode_attr(99, bytes.fromhex('deadbeef'), flags=wire.F_OPTIONAL 
 MP_REACH6 = wire.encode_attr(wire.MP_REACH, wire.encode_mp_reach(2, 1, '2001:db8::1', [P6], False))
 # the same NLRI bytes are one prefix with a path identifier, or five prefixes without
 NLRI_AMB_RAW = wire.encode_nlri(wire.nlri_ip(1, 1, '10.0.1.0', 24, path_id=1), True)
+WD_AMB_RAW = wire.encode_nlri(wire.nlri_ip(1, 1, '10.0.2.0', 24, path_id=1), True)
 
 BASE = [ORIGIN_IGP, ASPATH_AMB, NEXT_HOP]
 
 UPDATES = {
     # the attribute block every other "amb*" message repeats byte for byte
     'amb': wire.encode_update(attrs=BASE, nlri=[P1]),
-    # same attribute block, NLRI bytes whose meaning depends on ADD-PATH
-    'amb-ap': wire.encode_update(attrs=BASE) + NLRI_AMB_RAW,
+    # same attribute block, withdrawn and announced NLRI bytes whose meaning depends on ADD-PATH (and, carrying withdrawals, an
+    # API rendering of the same attribute set that differs from the one 'amb' asks for)
+    'amb-ap': wire.encode_update(attrs=BASE).replace(b'\x00\x00', len(WD_AMB_RAW).to_bytes(2, 'big') + WD_AMB_RAW, 1) + NLRI_AMB_RAW,
     # AS_PATH valid for a 2-byte-AS peer, malformed (treat-as-withdraw) for a 4-byte one
     'half': wire.encode_update(attrs=[ORIGIN_IGP, ASPATH_HALF, NEXT_HOP], nlri=[P1]),
     # malformed for everybody (treat-as-withdraw is not cached: the previous cache entry survives it)
@@ -169,6 +171,9 @@ def design_selfcheck() -> None:
     except wire.RefError:
         pass
     assert len(wire.decode_nlris(NLRI_AMB_RAW, 1, 1, True)) == 1 and len(wire.decode_nlris(NLRI_AMB_RAW, 1, 1, False)) == 5
+    for ap in (True, False):
+        u = wire.decode_update(UPDATES['amb-ap'], True, {(1, 1)} if ap else set())
+        assert len(u['withdrawn']) == (1 if ap else 5) and len(u['nlri']) == (1 if ap else 5), u
     blocks = {attr_block(UPDATES[m]) for m in ('amb', 'amb-ap')}
     assert len(blocks) == 1
     assert wire.is_eor(UPDATES['eor4']) == (1, 1) and wire.is_eor(UPDATES['eor6']) == (2, 1) and wire.is_eor(UPDATES['eor6s']) == (2, 1)
@@ -1017,20 +1022,32 @@ def _short(s, n=220) -> str:
     return s if len(s) <= n else s[:n] + '...'
 
 
+def _snip(a, b, n=150):
+    """The two strings around their first difference."""
+    a, b = str(a), str(b)
+    i = 0
+    m = min(len(a), len(b))
+    while i < m and a[i] == b[i]:
+        i += 1
+    lo = max(0, i - 60)
+    pre = '...' if lo else ''
+    return pre + a[lo:i + n] + ('...' if len(a) > i + n else ''), pre + b[lo:i + n] + ('...' if len(b) > i + n else '')
+
+
 def _describe(mode, seq, kind, pos, m, state) -> str:
     names = [letter_name(x) for x in seq]
     if kind == 'rib':
-        return (f'caching={mode} {names}: Adj-RIB-In of {m[2]} after the sequence is {_short(m[3])}, the per-message effects '
-                f'observed alone give {_short(m[4])} (state: {state})')
+        got, want = _snip(m[3], m[4], 260)
+        return (f'caching={mode} {names}: Adj-RIB-In of {m[2]} after the sequence is {got}; the tables before the last message plus its '
+                f'effect observed alone give {want} (state: {state})')
     got, want = m[3], m[4]
-    k = OBS_FIELDS.index(m[2][0]) if m[2][0] in OBS_FIELDS else 4
-    if 'struct' in m[2]:
-        k = 4
+    k = 4 if 'struct' in m[2] else (OBS_FIELDS.index(m[2][0]) if m[2][0] in OBS_FIELDS else 4)
+    g, w_ = _snip(got[k], want[k])
     if kind == 'mutated':
         return (f'caching={mode} {names}: the object decoded at position {pos} ({names[pos]}) renders differently after the rest of '
-                f'the sequence ({", ".join(m[2])}): then {_short(want[k])} now {_short(got[k])} (state: {state})')
+                f'the sequence ({", ".join(m[2])}): then {w_} now {g} (state: {state})')
     return (f'caching={mode} {names}: {names[-1]} decoded at position {pos} differs from the same message decoded alone in a fresh '
-            f'process ({", ".join(m[2])}): in-history {_short(got[k])} alone {_short(want[k])} (state: {state})')
+            f'process ({", ".join(m[2])}): in-history {g} alone {w_} (state: {state})')
 
 
 # ----------------------------------------------------------------------------------------------
